@@ -1477,6 +1477,12 @@ func (d *Data) ServeHTTP(uuid dvid.UUID, ctx *datastore.VersionedCtx, w http.Res
 			server.BadRequest(w, r, fmt.Sprintf("Error reading batchsize query string: %v", err))
 			return
 		}
+		// block coordinates are 32-bit and the layer arithmetic adds the batch size to them
+		const maxBatchSize = 1 << 20
+		if batchsize < 1 || batchsize > maxBatchSize {
+			server.BadRequest(w, r, fmt.Sprintf("batchsize must be between 1 and %d blocks, got %d", maxBatchSize, batchsize))
+			return
+		}
 
 		var jsonBytes []byte
 		optimizedStr := queryStrings.Get("optimized")
